@@ -470,4 +470,5 @@ def run(ctx):
     r16_4(ctx, b)
     import ras
     ras.r08_6(ctx)
+    ras.r08_8(ctx)
     ras.r10_4(ctx)
